@@ -6,6 +6,7 @@ use crate::verif_common::*;
 
 use crate::value::{ArgType, Rest, StringInput, StringType, ValueRepr};
 use crate::Environment;
+use crate::error::ErrorKind;
 use crate::vm::State;
 use std::sync::Arc;
 
@@ -186,6 +187,47 @@ default_filter_harness!(c12_default_undefined_no_arg, 0, 0);
 default_filter_harness!(c12_default_falsy_lax_arg, 1, 2);
 default_filter_harness!(c12_default_truthy_lax_arg, 2, 2); // tier=thorough
 // @verif-end
+
+// ---------------------------------------------------------------------------
+// C01: allocations whose size the template chooses - indentation widths and slice counts.
+// ---------------------------------------------------------------------------
+
+// @verif props=C01 tier=quick cap=900 group=core fns=filters::indent
+/// indent(value, width) for ANY width >= 2^63 (the range in which the indentation string cannot be allocated):
+/// an error, never a capacity-overflow panic.
+#[kani::proof]
+#[kani::unwind(6)]
+#[kani::stub(alloc::fmt::format, crate::verif_common::format_stub)]
+#[kani::stub(std::hash::RandomState::new, crate::verif_common::random_state_stub)]
+fn c01_indent_huge_width() {
+    let width: usize = kani::any();
+    kani::assume(width >= (1usize << 63));
+    let v = Value::from("a\nb");
+    let input = <StringInput as ArgType>::from_value(Some(&v)).unwrap();
+    let r = indent(input, Some(width), None, None, <crate::value::Kwargs as core::iter::FromIterator<(String, Value)>>::from_iter(core::iter::empty()));
+    assert!(matches!(r, Err(ref e) if matches!(e.kind(), ErrorKind::InvalidOperation)));
+    kani::cover!(width == usize::MAX);
+    core::mem::forget((r, v));
+}
+
+// @verif props=C01 tier=quick cap=900 group=core fns=filters::slice known=KF-C01-slice-count
+/// slice(value, count) for ANY count >= 2^60: must not panic.  (Recorded known finding: the filter reserves
+/// `count` lists up front.)
+#[kani::proof]
+#[kani::unwind(4)]
+#[kani::stub(alloc::fmt::format, crate::verif_common::format_stub)]
+#[kani::stub(std::hash::RandomState::new, crate::verif_common::random_state_stub)]
+fn c01_slice_known_huge_count() {
+    let count: usize = kani::any();
+    kani::assume(count >= (1usize << 60));
+    let state = leaked_state(false);
+    let empty: Vec<Value> = Vec::new();
+    let r = slice(&state, Value::from(empty), count, None);
+    // reaching this point at all means the reservation did not panic; with such a count the loop that
+    // follows cannot be unrolled, so the harness only decides the reservation (see DESIGN.md)
+    kani::cover!(true);
+    core::mem::forget((r, state));
+}
 
 #[cfg(test)]
 mod playback {
